@@ -224,6 +224,24 @@ func (pr *progRender) fnExpr(sp string, unit int, sigStr string, body []string, 
 		d += "}\n"
 		pr.decls = append(pr.decls, d)
 		return "top_" + name
+	case "generic":
+		// an explicitly instantiated generic function. With at least one
+		// value parameter the first one is typed by the type parameter and
+		// converted back in the body; otherwise the type parameter is a
+		// phantom.
+		tsig, inst, conv := plainSig, "struct{}", ""
+		if m := regexp.MustCompile(`a0 ([^,)]+)`).FindStringSubmatchIndex(plainSig); m != nil {
+			inst = plainSig[m[2]:m[3]]
+			tsig = plainSig[:m[0]] + "a0x X" + plainSig[m[1]:]
+			conv = "\ta0, _ := any(a0x).(" + inst + ") // comma-ok: a nil interface value converts to the zero value\n"
+		}
+		d := "func gen_" + name + "[X any]" + strings.TrimPrefix(tsig, "func") + " {\n\tenv := rt.FromCtx(ctx)\n" + conv
+		for _, l := range body {
+			d += "\t" + l + "\n"
+		}
+		d += "}\n"
+		pr.decls = append(pr.decls, d)
+		return "gen_" + name + "[" + inst + "]"
 	case "method":
 		d := "func (h *holder_" + pr.s.Name + ") M_" + name + strings.TrimPrefix(plainSig, "func") + " {\n\tenv := h.env\n"
 		for _, l := range body {
